@@ -36,6 +36,8 @@ def valid_dataset(ds):
 def valid(inp):
     try:
         dsets, events = inp["datasets"], inp["events"]
+        if inp.get("parallel", False) not in (True, False):
+            return False
         if not events or len(events) > 40 or not dsets or not all(valid_dataset(d) for d in dsets):
             return False
         ver = 0
@@ -55,7 +57,20 @@ def valid(inp):
                     return False
             elif kind == "tick":
                 if "fault" in ev and ev["fault"] is not None:
-                    if not isinstance(ev["fault"], int) or not (0 <= ev["fault"] <= 20) or ev.get("fmode") not in MODES:
+                    if not isinstance(ev["fault"], int) or not (0 <= ev["fault"] <= 20):
+                        return False
+                    fkind = ev.get("fkind", "after")
+                    if fkind == "table":
+                        # the `GET columns` query (k = 1) has no table that could be taken away
+                        if ev["fault"] == 1:
+                            return False
+                    elif fkind in ("", "after"):
+                        if ev.get("fmode") not in MODES:
+                            return False
+                        # refused connects of the straggling fetches of a parallel rebuild leave nothing to wait for
+                        if inp.get("parallel") and ev["fmode"] == "refuse":
+                            return False
+                    else:
                         return False
             elif kind != "stale":
                 return False
@@ -88,14 +103,14 @@ def shrinker(inp):
         if evs[i]["kind"] in ("restart", "change"):
             ver = sum(1 for e in evs[:i + 1] if e["kind"] in ("restart", "change"))
             dsets = dsets[:ver] + dsets[ver + 1:]
-        yield {"datasets": dsets, "events": rest}
+        yield dict(inp, datasets=dsets, events=rest)
     for i, ev in enumerate(evs):
         if ev["kind"] == "tick":
             for flag in ("minute", "full", "scan"):
                 if ev.get(flag):
                     e2 = dict(ev)
                     e2.pop(flag)
-                    yield {"datasets": inp["datasets"], "events": evs[:i] + [e2] + evs[i + 1:]}
+                    yield dict(inp, events=evs[:i] + [e2] + evs[i + 1:])
 
 
 PROP = Prop(
@@ -106,7 +121,9 @@ PROP = Prop(
                     shrinker=shrinker,
                     what="a real Peer single-stepped (periodicUpdate + initTablesIfRestartRequiredError, time shifted) against the scripted "
                          "backend: restarts with changed object sets, changes without restart, outages, stale timeout, rebuilds failing at "
-                         "every query k (enumerated: every k x 3 failure modes x same/other counts x stale or not, plus generated histories); "
+                         "every query k (enumerated: every k x 3 failure modes x same/other counts x stale or not, plus generated histories), "
+                         "exactly one table fetch of a rebuild failing (404) while all others succeed - every table, serial and parallel rebuild "
+                         "(MaxParallelPeerConnections 3: initAllTablesParallel, 40% of the generated histories); "
                          "after every event GET sites status/last_error and the keys of all 10 object tables (hosts with alias), and the "
                          "answers a concurrent reader got during the tick (services joined with host_alias), vs C11.Model.step")],
     trusted_base=[
@@ -117,8 +134,9 @@ PROP = Prop(
         "FailAfter(k) at the start of the rebuild, measures the number of queries of a rebuild and the tables a full update compares on "
         "the code under test), scripted backend harness/inpkg/vbackend.go, cases emitter (shares repeated sub terms by name)",
         "modelled, not verified: the Go scheduler between the concurrent reader and the rebuild (exercised, not enumerated), the 500 ms "
-        "ticker of updateLoop (single stepped), initAllTablesParallel (the stream runs the serial rebuild; stragglers of a failed parallel "
-        "rebuild keep querying after InitAllTables returned), connection pool (BackendKeepAlive off), HTTP/LMD federation, Icinga2 "
+        "ticker of updateLoop (single stepped), the schedule of the parallel table fetches of initAllTablesParallel (exercised; the harness "
+        "waits until the straggling fetches of a failed parallel rebuild have reported their errors before the next event; refused "
+        "connects are not combined with the parallel rebuild), connection pool (BackendKeepAlive off), HTTP/LMD federation, Icinga2 "
         "(reloadIfNumberOfObjectsChanged), idle mode, several sources (C13)",
     ],
     assumptions=[
